@@ -54,6 +54,8 @@ type faultCase struct {
 	// Prior: kind of an earlier request call on the same client ("" none): success | stall | partial-stall | eof | ioerr
 	Prior      string `json:"prior,omitempty"`
 	PriorShape string `json:"prior_shape,omitempty"` // request of the earlier call: "" same | short | long
+	// PriorRepeat: the earlier call is made this many times in a row (a run of identical outcomes, e.g. timeouts) before the judged call
+	PriorRepeat int `json:"prior_repeat,omitempty"`
 	// WithCause (cancel / deadline faults): the caller's context carries a cause of its own (see cli.Scenario)
 	WithCause bool `json:"with_cause,omitempty"`
 	// ExplicitParser: the client's configuration names the standard response parser explicitly (see cli.Scenario)
@@ -188,6 +190,7 @@ func prepare(c faultCase) (prep, error) {
 	sc.WithCause = c.WithCause
 	sc.Prior = c.Prior
 	sc.PriorReq = cli.PriorShapeReq(c.PriorShape)
+	sc.PriorRepeat = c.PriorRepeat
 	if (c.Prior == "stall" || c.Prior == "partial-stall") && sc.ReadTimeoutMs > 100 {
 		sc.Prior = "eof" // keep the earlier call short when this case needs a long client timeout
 	}
@@ -392,6 +395,9 @@ func genFault(t *rapid.T, kinds []string) faultCase {
 	if c.Fault != "not-connected" && c.Fault != "connect-failed" && c.Fault != "nil-request" && rapid.IntRange(0, 2).Draw(t, "with_prior") == 0 {
 		c.Prior = rapid.SampledFrom([]string{"success", "stall", "partial-stall", "eof", "ioerr", "nil-request"}).Draw(t, "prior")
 		c.PriorShape = rapid.SampledFrom(cli.PriorShapes).Draw(t, "prior_shape")
+		if c.Prior != "nil-request" && rapid.IntRange(0, 2).Draw(t, "prior_run") == 0 {
+			c.PriorRepeat = rapid.SampledFrom([]int{2, 3, 5, 6, 7, 8, 9, 12}).Draw(t, "prior_repeat")
+		}
 	}
 	if c.Prefix > 1 {
 		k := rapid.IntRange(0, 3).Draw(t, "ncuts")
